@@ -43,7 +43,9 @@ func loadSpec() (*spec.Spec, error) {
 
 var insertAlphabet = []string{":", ";", "|", ".", "-", "[", "]", "{", "}", "(", ")", "'x'", `"s"`, "`r`", "tkq", "_rq", "!igq", "Q", "<< z >>", "$", "#", ",", "=", "<", "/",
 	// malformed character literals (not tokens of the documented lexical syntax)
-	`'\x7g'`, `'\128'`, `'ab'`, `'\q'`, `'\u12'`, `'\U0000004_'`, `'\x4'`}
+	`'\x7g'`, `'\128'`, `'ab'`, `'\q'`, `'\u12'`, `'\U0000004_'`, `'\x4'`,
+	// characters that look like white space but are not the scanner's (blank, tab, CR, LF)
+	"\u00a0", "\u2028", "\u3000", "\f", "\v", "\u0085", "\u200b", "\u2003"}
 
 var undefinedProdNames = []string{"Zz", "Undefined", "Q9", "Übung", "Ωmega", "Éa"}
 
